@@ -340,6 +340,12 @@ def gen_cases(ctx):
     specs.append({"k": "mux", "nc": 1, "cq": [0],
                   "gs": [{"k": "ctrl", "pat": [0, 1], "cq": [1, 2], "g": {"k": "leaf", "name": "S", "q": [3]}},
                          {"k": "ctrl", "pat": [1, 0], "cq": [1, 2], "g": {"k": "leaf", "name": "H", "q": [3]}}]})
+    # degenerate sizes: 0 controls (controlled gate = its target, multiplexer of one target), also nested
+    specs.append({"k": "ctrl", "pat": [], "cq": [], "g": {"k": "leaf", "name": "S", "q": [0]}})
+    specs.append({"k": "mux", "nc": 0, "cq": [], "gs": [{"k": "leaf", "name": "Y", "q": [0]}]})
+    specs.append({"k": "ctrl", "pat": [1], "cq": [1],
+                  "g": {"k": "mux", "nc": 0, "cq": [],
+                        "gs": [{"k": "ctrl", "pat": [], "cq": [], "g": {"k": "leaf", "name": "H", "q": [0]}}]}})
     # block encodings of random Hermitian H, each method, bare and controlled; time evolution; prepare
     for method in ("Wx", "Wxi", "R"):
         for n in (1, 2):
